@@ -60,6 +60,7 @@ fn main() {
         ("drive", "steps") => fam_a::drive_steps(&a, &mut out),
         ("rerun", _) => rerun::rerun(&a, &mut out),
         ("drive", "builder") => fam_builder::drive_builder(&a, &mut out),
+        ("drive", "big") => fam_h::drive_big(&a, &mut out),
         ("drive", "c10ops") => fam_a::drive_c10ops(&a, &mut out),
         (m, f) => {
             eprintln!("unknown mode/family {} {}", m, f);
